@@ -298,4 +298,134 @@ open Model.Transcript in
 example : ({ hb := [1], gb := [[2]], n := 8, t := 1, m := 1, cs := [[3]], ps := [0] } : Pub).ok :=
   ⟨by decide, by decide, by decide, rfl, rfl, by simp⟩
 
+/-! ## C07 Minimum-value promises -/
+
+/-- **C07 (shift).** Changing only the promise vector changes the reference residual by an explicit multiple of the
+    value generator: `e²·y^{N+1}·Σ_j z^{2(j+1)}(p_j − p′_j)`. -/
+theorem C07_shift (I : RangeInst F M) (p' : ℕ → F) (π : ProofM F M) (y z : F) (es : List F) (e : F) :
+    Model.specResidual I π y z es e - Model.specResidual { I with p := p' } π y z es e
+      = (e ^ 2 * ∑ j ∈ range I.m, y ^ (I.n * I.m + 1) * z ^ (2 * (j + 1)) * (I.p j - p' j)) • I.hb := by
+  rw [specResidual_bridge, specResidual_bridge]; exact promise_shift I p' π y z es e
+
+/-- **C07 (binding, one commitment).** One proof accepted under promises `p` and `p′` at the same non-zero
+    challenges, with a non-zero value generator: `p = p′` (in the field; 64-bit promises inject into it). -/
+theorem C07_bind_single (I : RangeInst F M) (hm : I.m = 1) (p' : ℕ → F) (π : ProofM F M)
+    (y z : F) (es : List F) (e : F) (hy : y ≠ 0) (hz : z ≠ 0) (he : e ≠ 0) (hhb : I.hb ≠ 0)
+    (h : Model.specResidual I π y z es e = 0) (h' : Model.specResidual { I with p := p' } π y z es e = 0) :
+    I.p 0 = p' 0 := by
+  rw [specResidual_bridge] at h h'; exact promise_unique_single I hm p' π y z es e hy hz he hhb h h'
+
+/-- **C07 (binding, aggregate).** … for `m` commitments `z²` is a root of the polynomial with coefficients
+    `p_j − p′_j`; `z` is drawn after every promise is absorbed (C04), so a non-zero difference survives for at most
+    `m` values of `z²`. (At a *fixed* `z` equality of all promises does not follow algebraically and is not claimed.) -/
+theorem C07_bind_poly (I : RangeInst F M) (p' : ℕ → F) (π : ProofM F M)
+    (y z : F) (es : List F) (e : F) (hy : y ≠ 0) (he : e ≠ 0) (hhb : I.hb ≠ 0)
+    (h : Model.specResidual I π y z es e = 0) (h' : Model.specResidual { I with p := p' } π y z es e = 0) :
+    ∑ j ∈ range I.m, z ^ (2 * (j + 1)) * (I.p j - p' j) = 0 := by
+  rw [specResidual_bridge] at h h'; exact promise_poly I p' π y z es e hy he hhb h h'
+
+open Model.Batch in
+/-- **C07 (range).** Any statement anywhere in a batch with a promise that does not fit the bit length makes the
+    verifier return an error. -/
+theorem C07_promise_range (c : ℕ) (a : Action) (nT nP : ℕ) (ms : List Member) (x : Member) (hx : x ∈ ms)
+    (h : x.promisesFit = false) : verifyBatch c a nT nP ms = none :=
+  BatchFlow.verifyBatch_refuses c a nT nP ms (Or.inr (Or.inr (Or.inr (Or.inr ⟨x, hx, h⟩))))
+
+open Model.Ctors in
+/-- **C07 (prover).** `value = promise` passes the promise guard, `value < promise` does not (part of `C06_guard_iff`). -/
+theorem C07_prover_boundary (v : ℕ) :
+    proverGuards 64 1 1 1 [⟨v, 1, true⟩] [some v] = (valueFits 64 v) ∧
+    proverGuards 64 1 1 1 [⟨v, 1, true⟩] [some (v + 1)] = false := by
+  simp [proverGuards, commitOk]
+
+/-! ## C09 Mask recovery correctness -/
+
+/-- **C09.** For one commitment, any bit length, extension degree and number of rounds, any nonce family (the hash
+    is a parameter), any prover randomness `r`, `s`, and non-zero `y`, `z`, `e`: the recovery formula applied to the
+    model prover's `d1` returns the blinding factor of the commitment, component by component in order. -/
+theorem C09_recover (I : RangeInst F M) (hn : 0 < I.n) (hm : I.m = 1) (v p : ℕ → ℕ) (r : ℕ → ℕ → F)
+    (α0 : ℕ → F) (dL dR : ℕ → ℕ → F) (rr ss : F) (d η : ℕ → F)
+    (y z : F) (es : List F) (e : F) (hy : y ≠ 0) (hz : z ≠ 0) (he : e ≠ 0) (k : ℕ) :
+    Model.recoverMask (I.n * I.m) α0 d η dL dR y z es e
+      (Model.rangeProve I v p r α0 dL dR rr ss d η y z es e).wipP.d1 k = r 0 k := by
+  rw [rangeProve_bridge I hn, recoverMask_bridge]
+  exact recover_correct I hm v p r α0 dL dR rr ss d η y z es e hy hz he k
+
+open Model.Batch in
+/-- **C09 (positions).** In a successful batch call entry `i` is a mask exactly when the mode recovers and member
+    `i` carries a seed (seeded statements have one commitment, `C17_statement`). -/
+theorem C09_positions (c : ℕ) (a : Action) (nT nP : ℕ) (ms : List Member) (r : List Bool)
+    (h : verifyBatch c a nT nP ms = some r) (i : ℕ) (hi : i < ms.length) :
+    r[i]? = some (a ≠ .verifyOnly && ms[i].seeded) := by
+  rw [(BatchFlow.verifyBatch_aligned c a nT nP ms r h).2 i hi]
+  cases a <;> simp [maskOf]
+
+/-! ## C10 Recovery is keyed by the seed and never changes the verdict -/
+
+/-- **C10 (keyed).** With another nonce family (another seed) the recovered value is the true mask plus an explicit
+    linear form in the nonce differences; it equals the true mask iff that form vanishes. -/
+theorem C10_wrong_seed (I : RangeInst F M) (hn : 0 < I.n) (hm : I.m = 1) (v p : ℕ → ℕ) (r : ℕ → ℕ → F)
+    (α0 α0' : ℕ → F) (dL dR dL' dR' : ℕ → ℕ → F) (rr ss : F) (d η d' η' : ℕ → F)
+    (y z : F) (es : List F) (e : F) (hy : y ≠ 0) (hz : z ≠ 0) (he : e ≠ 0) (k : ℕ) :
+    Model.recoverMask (I.n * I.m) α0' d' η' dL' dR' y z es e
+      (Model.rangeProve I v p r α0 dL dR rr ss d η y z es e).wipP.d1 k
+      = r 0 k + (((η k - η' k) + e * (d k - d' k)) * (e^2)⁻¹ + (α0 k - α0' k)
+          + (roundNonceSum dL dR es 0 k - roundNonceSum dL' dR' es 0 k)) * (z^2 * (y^(I.n * I.m) * y))⁻¹ := by
+  rw [rangeProve_bridge I hn, recoverMask_bridge]
+  exact recover_wrong_seed I hm v p r α0 α0' dL dR dL' dR' rr ss d η d' η' y z es e hy hz he k
+
+open Model.Batch in
+/-- **C10 (verdict).** The accept/reject verdict is the same whether or not statements carry seeds and whichever
+    verifying mode is requested. -/
+theorem C10_verdict (c : ℕ) (nT nP : ℕ) (ms ms' : List Member)
+    (hsame : ms'.map (fun x => { x with seeded := false }) = ms.map (fun x => { x with seeded := false })) :
+    (verifyBatch c .verifyOnly nT nP ms).isSome = (verifyBatch c .recoverAndVerify nT nP ms').isSome :=
+  BatchFlow.verdict_seed_mode_independent c nT nP ms ms' hsame
+
+open Model.Batch in
+/-- **C10 (modes).** Recover-only returns, for every batch that recover-and-verify accepts, the same results. -/
+theorem C10_modes (c : ℕ) (nT nP : ℕ) (ms : List Member) (r : List Bool)
+    (h : verifyBatch c .recoverAndVerify nT nP ms = some r) : verifyBatch c .recoverOnly nT nP ms = some r :=
+  BatchFlow.recoverOnly_same_masks c nT nP ms r h
+
+/-! ## C08 Batch weighting -/
+
+/-- **C08 (non-zero factor).** Whatever the RNG returns, a weight obtained by rejection sampling is non-zero. -/
+theorem C08_weight_nonzero [DecidableEq F] (draws : List F) (w : F) (h : Model.firstNonZero draws = some w) : w ≠ 0 := by
+  induction draws with
+  | nil => simp [Model.firstNonZero] at h
+  | cons x xs ih =>
+    simp only [Model.firstNonZero] at h
+    split at h
+    · exact ih h
+    · injection h with h; subst h; assumption
+
+/-- **C08 (the factor is the weight).** Each member enters the batch sum as its weight times its reference residual
+    (`C02_contribution_eq`), so a k-member chunk computes `Σ_i w_i • R_spec,i`. -/
+theorem C08_factor (I : RangeInst F M) (hn : 0 < I.n) (π : ProofM F M) (y z : F) (es : List F) (e w : F)
+    (k : ℕ) (hm : I.m = 2 ^ k) (hN : I.n * I.m = 2 ^ es.length)
+    (hL : π.Ls.length = es.length) (hR : π.Rs.length = es.length)
+    (hy0 : y ≠ 0) (hy1 : y ≠ 1) (hes : ∀ x ∈ es, x ≠ 0) :
+    Model.codeContribution I π y z es e w = w • Model.specResidual I π y z es e :=
+  C02_contribution_eq I hn π y z es e w k hm hN hL hR hy0 hy1 hes
+
+/-- **C08 (no cancellation).** With the residuals fixed and member `j` invalid, at most one value of `w_j` makes the
+    sum vanish whatever the other weights are — so defects in different proofs cancel only with probability ≤ 1/ℓ
+    over a weight that is re-randomised by any change to a response scalar (`C08_weight_input`). -/
+theorem C08_no_cancel (k : ℕ) (w w' : ℕ → F) (R : ℕ → M) (j : ℕ) (hj : j < k)
+    (hRj : R j ≠ 0) (hagree : ∀ i, i ≠ j → w i = w' i)
+    (h0 : Model.sumTo k (fun i => w i • R i) = 0) (h0' : Model.sumTo k (fun i => w' i • R i) = 0) : w j = w' j :=
+  C03_chunk_at_most_one_weight k w w' R j hj hRj hagree h0 h0'
+
+open Model.Transcript in
+/-- **C08 (what the weight depends on).** The history each member contributes to the weight derivation determines
+    its whole statement, every proof point and the response scalars `r1`, `s1`, every `d1_k`: changing any response
+    scalar of any member changes the random oracle's input for every weight. -/
+theorem C08_weight_input (ctx : List Event) (x x' : Pub) (hx : x.ok) (hx' : x'.ok) (A A' : Bytes)
+    (lrs lrs' : List (Bytes × Bytes)) (a1 b a1' b' r1 s1 r1' s1' : Bytes) (d1 d1' : List Bytes)
+    (hd : d1.length = d1'.length)
+    (h : beforeWeight ctx x A lrs a1 b r1 s1 d1 = beforeWeight ctx x' A' lrs' a1' b' r1' s1' d1') :
+    x = x' ∧ A = A' ∧ lrs = lrs' ∧ a1 = a1' ∧ b = b' ∧ r1 = r1' ∧ s1 = s1' ∧ d1 = d1' :=
+  beforeWeight_inj_data ctx x x' hx hx' A A' lrs lrs' a1 b a1' b' r1 s1 r1' s1' d1 d1' hd h
+
 end Bpp
